@@ -137,6 +137,30 @@ example : MergePy.runIter selFirstMin Gen.genitemInit Gen.genitemNext Gen.genite
 example : MergePy.runIter selFirstMin Gen.genitemInit Gen.genitemNext Gen.genitemCmp Gen.rsetIterProgram
             { rrules := [[1, 2, 5], [2, 3]], rdates := [9, 0], exdates := [3] } = some ([0, 1, 2, 5, 9], 5) := by decide
 
+/-- **gen_mutators_eq_model.** `rruleset.rrule / rdate / exrule / exdate` as translated (each `@_invalidates_cache`, body
+    `self._<list>.append(x)`) with the translated decorator (`rv = f(…); self._invalidate_cache(); return rv`): each appends its
+    argument to ITS OWN member list and `_invalidate_cache()` runs after the append — what `RSet.applyOp` does for the four
+    mutator ops (`invalidate st { m with <list> := <list> ++ [x] }`); `rruleset.__init__` calls the base initialiser and starts
+    from four empty lists (`newState`). -/
+theorem gen_mutators_eq_model (m : Members) :
+    (∀ l, MergePy.runMutRule Gen.invalidatesDecorator Gen.rsetMutators .rrule m l = some ({ m with rrules := m.rrules ++ [l] }, true)) ∧
+    (∀ l, MergePy.runMutRule Gen.invalidatesDecorator Gen.rsetMutators .exrule m l = some ({ m with exrules := m.exrules ++ [l] }, true)) ∧
+    (∀ d, MergePy.runMutDate Gen.invalidatesDecorator Gen.rsetMutators .rdate m d = some ({ m with rdates := m.rdates ++ [d] }, true)) ∧
+    (∀ d, MergePy.runMutDate Gen.invalidatesDecorator Gen.rsetMutators .exdate m d = some ({ m with exdates := m.exdates ++ [d] }, true)) ∧
+    Gen.rsetInit = { callsBaseInit := true, emptyLists := [.rrule, .rdate, .exrule, .exdate] } :=
+  ⟨fun _ => rfl, fun _ => rfl, fun _ => rfl, fun _ => rfl, rfl⟩
+
+/-- **gen_base_init_eq_model.** `rrulebase.__init__` as translated, with the translated `_invalidate_cache`: `cache=True` gives
+    the fresh machine `Cache.initShared` (`newState true`: the generation counter is 1 — it is only ever compared for equality),
+    `cache=False` an object without cache list, `_cache_complete` False, `_len` None, generation 0. -/
+theorem gen_base_init_eq_model (o : CachePy.Obj) (src : List Int) (e : Option Py.PyErr) :
+    CachePy.runInitObj src e Gen.invalidateProgram true Gen.baseInitProgram o =
+      some { cached := true, sh := Cache.initShared src e, generation := 1 } ∧
+    CachePy.runInitObj src e Gen.invalidateProgram false Gen.baseInitProgram o =
+      some { cached := false, sh := { o.sh with complete := false, len := none }, generation := 0 } := by
+  constructor <;> simp [CachePy.runInitObj, CachePy.chooseBranch, Gen.baseInitProgram, CachePy.runFlat, CachePy.runI, CachePy.runIL,
+    Gen.invalidateProgram, Cache.initShared]
+
 /-- **gen_invalidate_eq_model.** `rrulebase._invalidate_cache` as translated from the source (`Gen.invalidateProgram`,
     meaning `CachePy.runIL`) on a cached object, whatever its state: a fresh cache list, `_cache_complete` False, a fresh
     (`_restartable`) generator over the members as they are now, lock released, `_len` None, generation counter + 1 — exactly
